@@ -70,6 +70,8 @@ class FArr(Model):
             return 1
         if name == 'dtype':
             return np.dtype(np.uint8)
+        if name == 'flags':
+            return Flags()
         if name == 'view':
             def view(ex_, st_, args, kwargs, node_):
                 if len(args) != 1 or np.dtype(args[0]) != np.dtype(np.uint8):
@@ -122,6 +124,13 @@ class FArr(Model):
         raise NotInSubset(f'ndarray index {idx!r}')
 
 
+class Flags(Model):
+    """memory layout flags of an array: unknown to the model (either answer is possible)"""
+
+    def m_getattr(self, ex, st, name, node):
+        return ex.fv('flag_' + name, 'bool')
+
+
 class FlatArr(Model):
     """row-major flattening of ``inner`` (only a reshape back to inner's shape is accepted)"""
 
@@ -162,7 +171,10 @@ def np_prims(np):
         if kwargs.get('bitorder') != 'little' or len(args) > 2:
             raise NotInSubset("np.unpackbits without bitorder='little'")
         axis = kwargs.get('axis', args[1] if len(args) > 1 else None)
-        ex.assumed.add("np.unpackbits(bitorder='little'): bit b of element e at position 8*pos(e)+b along the axis (flattened without axis)")
+        count = kwargs.get('count')
+        if count is not None and (_conc_int(count) is None or count < 0 or axis is None):
+            raise NotInSubset('np.unpackbits count')
+        ex.assumed.add("np.unpackbits(bitorder='little'): bit b of element e at position 8*pos(e)+b along the axis (flattened without axis); count = length kept along the axis")
         if isinstance(a, FlatArr):
             a = a.inner
             flat = True
@@ -176,6 +188,8 @@ def np_prims(np):
             raise NotInSubset('np.unpackbits along an axis other than the last')
         last = a.shape_[-1]
         new_last = 8 * last if isinstance(last, int) else SInt(8 * to_int(last))
+        if count is not None:
+            new_last = min(new_last, count) if isinstance(new_last, int) else SInt(z3.If(to_int(new_last) < count, to_int(new_last), count))
         return FArr(a.shape_[:-1] + [new_last], lambda ix: bit(a.elem(list(ix[:-1]) + [ix[-1] / 8]), ix[-1] % 8))
 
     def packbits(ex, st, args, kwargs, node):
@@ -220,4 +234,8 @@ def np_prims(np):
         if any(is_sym(x) or isinstance(x, Model) for x in args) or kwargs:
             raise NotInSubset('np.dtype of a symbolic value')
         return np.dtype(*args)
-    return {np.unpackbits: unpackbits, np.packbits: packbits, np.pad: pad, np.dtype: dtype}
+    def swapaxes(ex, st, args, kwargs, node):
+        if len(args) != 3 or not isinstance(args[0], FArr) or kwargs:
+            raise NotInSubset('np.swapaxes arguments')
+        return args[0].m_getattr(ex, st, 'swapaxes', node).m_call(ex, st, args[1:], {}, node)
+    return {np.unpackbits: unpackbits, np.packbits: packbits, np.pad: pad, np.dtype: dtype, np.swapaxes: swapaxes}
